@@ -134,6 +134,12 @@ def run(ctx):
         runs += e2e.cached_runs(ctx, [{"N": 1 + j % 2, "W": 1 + j % 3, "K": 2 + j % 2, "beta": [2.0, 6.0, 0.5][j % 3], "beta_vec": ["ramp", "random", "const"][j % 3],
                                        "lam": 0.11, "limit": [30, 1, 3][j % 3], "m": 2, "biased": False, "eps": 0, "joint": False, "lengths": [70 + 5 * j],
                                        "data_seed": 660 + j, "rng_seed": 660 + j, "regimes": 3} for j in range(ctx.budget(5, 12))], "c06vec")
+        # series with a large constant offset relative to their spread (coordinates in metres, timestamps, absolute pressures):
+        # the cost and the likelihoods of one result must still be the same numbers
+        runs += e2e.cached_runs(ctx, [{"N": [2, 3, 1][j % 3], "W": [2, 1, 3][j % 3], "K": 2 + j % 2, "beta": [2.0, 5.0][j % 2], "lam": 0.11,
+                                       "limit": [3, 30][j % 2], "m": 2, "biased": bool(j % 2), "eps": 0, "joint": j % 3 == 1,
+                                       "lengths": [[80], [45, 50], [90]][j % 3], "data_seed": 680 + j, "rng_seed": 680 + j, "regimes": 2 + j % 2,
+                                       "offset": [1e5, 3e6, 6.4e6, 1e7][j % 4]} for j in range(ctx.budget(4, 10))], "c06off")
         empties = 0
         for r in runs:
             ctx.count("run")
